@@ -141,31 +141,33 @@ static Verdict runPacket(const Case& c, Info& info)
             // equal-looking target: identical to the source except for exactly one header field
             dstPtr = makePacket(c.src);
             lib::Packet& d = *dstPtr;
+            // exactly one bit of exactly one header field differs (bit position taken from the target spec)
+            const unsigned bit = c.dst.dev;
             switch (c.dst.seq % 9)
             {
                 case 0:
-                    d.setVersion(static_cast<uint8_t>(d.getVersion() + 1));
+                    d.setVersion(static_cast<uint8_t>(d.getVersion() ^ (1u << (bit % 8))));
                     break;
                 case 1:
-                    d.setDeviceId(static_cast<uint16_t>(d.getDeviceId() + 1));
+                    d.setDeviceId(static_cast<uint16_t>(d.getDeviceId() ^ (1u << (bit % 16))));
                     break;
                 case 2:
-                    d.setStreamId(static_cast<uint8_t>(d.getStreamId() + 1));
+                    d.setStreamId(static_cast<uint8_t>(d.getStreamId() ^ (1u << (bit % 8))));
                     break;
                 case 3:
-                    d.setSequenceCounter(static_cast<uint16_t>(d.getSequenceCounter() + 1));
+                    d.setSequenceCounter(static_cast<uint16_t>(d.getSequenceCounter() ^ (1u << (bit % 16))));
                     break;
                 case 4:
-                    d.setTimestamp(d.getTimestamp() + 1);
+                    d.setTimestamp(d.getTimestamp() ^ (1ull << (bit % 64)));
                     break;
                 case 5:
-                    d.setInterfaceId(d.getInterfaceId() + 1);
+                    d.setInterfaceId(d.getInterfaceId() ^ (1u << (bit % 32)));
                     break;
                 case 6:
-                    d.setVendorId(static_cast<uint16_t>(d.getVendorId() + 1));
+                    d.setVendorId(static_cast<uint16_t>(d.getVendorId() ^ (1u << (bit % 16))));
                     break;
                 case 7:
-                    d.setCommonFlags(static_cast<uint8_t>(d.getCommonFlags() ^ 0x01));
+                    d.setCommonFlags(static_cast<uint8_t>(d.getCommonFlags() ^ (1u << (bit % 8))));
                     break;
                 default:
                     d.setSegmentType(d.getSegmentType() == lib::MessageHeader::SegmentType::unsegmented ? lib::MessageHeader::SegmentType::lastSegment
@@ -412,6 +414,11 @@ static rc::Gen<Case> genCase(int)
         c.op = *range<uint8_t>(0, 3);
         c.src = *genSpec();
         c.dst = *genSpec();
+        if (c.relation == 4)
+        {
+            c.dst.seq = *range<uint16_t>(0, 8);   // which field differs
+            c.dst.dev = *range<uint16_t>(0, 63);  // which bit of it
+        }
         // equal-looking pairs of different payload types / both zero-length are the interesting region
         if (*range<int>(0, 3) == 0)
         {
@@ -427,6 +434,31 @@ static rc::Gen<Case> genCase(int)
 
 static void enumerate(int, const std::function<bool(const Case&)>& emit)
 {
+    // equal-looking pairs: every header field x every bit position, packets with a non-empty payload
+    for (uint16_t field = 0; field < 9; ++field)
+        for (uint16_t bit = 0; bit < 64; ++bit)
+            for (uint8_t op = 0; op < 4; ++op)
+            {
+                Case c;
+                c.domain = 0;
+                c.relation = 4;
+                c.op = op;
+                c.src.shape = 1;
+                c.src.r.kind = rkCan;
+                c.src.r.len = 4;
+                c.src.r.seed = 9;
+                c.src.r.ts = 0x0123456789ABCDEFull;
+                c.src.r.ifId = 0x89ABCDEF;
+                c.src.r.vendorId = 0x4567;
+                c.src.dev = 0x1234;
+                c.src.stream = 0x56;
+                c.src.seq = 0x789A;
+                c.dst = c.src;
+                c.dst.seq = field;
+                c.dst.dev = bit;
+                if (!emit(c))
+                    return;
+            }
     // all shape pairs x relations x operations for a small set of payload kinds
     for (uint8_t domain = 0; domain < 3; ++domain)
         for (uint8_t srcShape = 0; srcShape < 5; ++srcShape)
